@@ -16,6 +16,17 @@ import KonstVerif.Spec.Cmp
            hex (`-` empty), lists `[a;b;c]`, ranges `start|end`, inclusive ranges
            `start|end|<exhausted 0/1>`, Options `none` / `some:<v>`
   answer:  model<TAB>spec   with t/f, lt/eq/gt, ok/panic (`panic` also for a model-level panic)
+
+  the macros as expressions of a program (generated programs, vlib/progs/c16.py):
+    <eq|cmp>.<se|sb>.<via> <ty> <left stream> <right stream>   |   assertc.<se|sb>.<eq|ne> <ty> <left stream> <right stream>
+           the argument expressions have side effects (`se`: a call advancing a cursor, `sb`: a block
+           incrementing a counter); a stream `v0/v1/…` lists the values successive evaluations produce.
+           <via> macro | optmacro | for | forkey | forcl | forpath | optfor | optforkey | optforcl | optforpath
+           answer  <value>|<#evaluations of left>|<#evaluations of right>|<order, e.g. lr>   (model: `ArgUse` of
+           the macro, the value of the macro on `ArgUse.operands`; spec: `ArgUse.once`, std on the first values)
+    <eq|cmp>.at.<position>.<via> <ty> <a> <b> [<p1> <p2>]      |   assertc.at.stmt.<eq|ne> <ty> <a> <b>
+           the macro call in a non-tail position; answer = the value of the surrounding function
+           (`posOrd` / `posBool` / `posApply` below) applied to the model's / the spec's value of the macro
 -/
 namespace Driver.C16
 open Konst.Cmp Konst.Spec.Cmp Driver
@@ -192,7 +203,14 @@ def lawsLine (ab bc ac ba : String) : String :=
   let transEq := !(ab == "eq") || ac == bc
   s!"{ab}|{bc}|{ac}|{ba}:" ++ (if total && antisym && trans && transEq then "ok" else "broken")
 
-def handle (op : String) (args : List String) : Option (String × String) := do
+/-- `const_eq_for!` / `const_cmp_for!(option; …)` with the default / key / two-argument closure /
+    path comparator (all comparing the payloads like the payload type's own comparison), and on
+    the user type -/
+def isOptFor (via : String) : Bool :=
+  via = "optfor" || via = "optforkey" || via = "optforcl" || via = "optforpath" || via = "optforimpl"
+
+/-- requests on VALUES: `eq.<via>`, `cmp.<via>`, `assertc.eq|ne`, `cmp.laws` -/
+def handleBase (op : String) (args : List String) : Option (String × String) := do
   match args with
   | [ty, sa, sb, sc] =>
     if op ≠ "cmp.laws" then none else
@@ -217,15 +235,15 @@ def handle (op : String) (args : List String) : Option (String × String) := do
         some ((if assertcNe e = .ok then "ok" else "panic"), (if isEq then "panic" else "ok"))
       else none
     | [what, via] =>
-      if via = "opt" || via = "optmacro" || via = "optfor" || via = "optforimpl" then
+      if via = "opt" || via = "optmacro" || isOptFor via then
         let a ← parseOptVal k sa
         let b ← parseOptVal k sb
         if what = "eq" then
-          let m := if via = "optfor" || via = "optforimpl" then constEqForOption (payloadEq k) a b else eqOption (payloadEq k) a b
+          let m := if isOptFor via then constEqForOption (payloadEq k) a b else eqOption (payloadEq k) a b
           some (showOB m, showBool (stdEq a b))
         else if what = "cmp" then
           if k = .range || k = .rangeInc then none else
-          let m := if via = "optfor" || via = "optforimpl" then constCmpForOption (payloadCmp k) a b else cmpOption (payloadCmp k) a b
+          let m := if isOptFor via then constCmpForOption (payloadCmp k) a b else cmpOption (payloadCmp k) a b
           some (showOO m, showOrd (optCmp (fun x y => (cmpSpec k x y).getD .eq) a b))
         else none
       else
@@ -242,5 +260,108 @@ def handle (op : String) (args : List String) : Option (String × String) := do
         else none
     | _ => none
   | _ => none
+
+/-! ### the macros as expressions of a program (generated programs, vlib/progs/c16.py) -/
+
+/-- which expansion a `<what>.<via>` names (`none`: not a macro) -/
+def argUseOf (what via : String) : Option ArgUse :=
+  if what = "assertc" then (if via = "eq" || via = "ne" then some cmpAssertArgs else none)
+  else
+    let plain := via = "macro" || via = "optmacro"
+    let for_ := via = "for" || via = "forkey" || via = "forcl" || via = "forpath" ||
+      via = "optfor" || via = "optforkey" || via = "optforcl" || via = "optforpath"
+    if what = "eq" then (if plain then some constEqArgs else if for_ then some constEqForArgs else none)
+    else if what = "cmp" then (if plain then some constCmpArgs else if for_ then some constCmpForArgs else none)
+    else none
+
+/-- `v0/v1/…`: the values successive evaluations of an argument expression produce -/
+def parseStream (s : String) : Option (ArgExpr String) :=
+  match s.splitOn "/" with
+  | x :: xs => if (x :: xs).any (· = "") then none else some ⟨x, xs⟩
+  | [] => none
+
+def showEvals (l : List Arg) : String :=
+  String.ofList (l.map fun a => if a = .left then 'l' else 'r')
+
+def showUse (u : ArgUse) : String :=
+  s!"{u.count .left}|{u.count .right}|{showEvals u.evals}"
+
+/-- `<what>.<se|sb>.<via> <ty> <left stream> <right stream>`: the value of the macro on the operands its
+    expansion reads, the number of evaluations of each argument expression and their order; the
+    std side evaluates `left` then `right` once each and compares those two values -/
+def handleStreams (what via : String) (args : List String) : Option (String × String) := do
+  match args with
+  | [ty, sl, sr] =>
+    let u ← argUseOf what via
+    let l ← parseStream sl
+    let r ← parseStream sr
+    let (a, b) := u.operands l r
+    let (m, _) ← handleBase s!"{what}.{via}" [ty, a, b]
+    let (a0, b0) := ArgUse.once.operands l r
+    let (_, s) ← handleBase s!"{what}.{via}" [ty, a0, b0]
+    some (m ++ "|" ++ showUse u, s ++ "|" ++ showUse .once)
+  | _ => none
+
+def parseBoolTok (s : String) : Option Bool :=
+  if s = "t" then some true else if s = "f" then some false else none
+
+/-- the rest of the generated function around an `Ordering`-valued macro call (`o` its value, `os`
+    its value on the swapped arguments, `key` the second key) -/
+def posOrd (pos : String) (o os : Ordering) (key : Option (Int × Int)) : Option String :=
+  if pos = "rev" || pos = "constrev" then some (showOrd o.swap)                -- `.reverse()`
+  else if pos = "islt" || pos = "eqlt" then some (showBool (o = .lt))           -- `matches!(.., Less)`, `== Less`
+  else if pos = "ifv" then some (if o = .lt then "11" else "10")                -- `if let Less = .. { n += 1 }`
+  else if pos = "match" then some (match o with | .lt => "-1" | .eq => "0" | .gt => "1")
+  else if pos = "loop" then some (if o = .lt then "30" else "3")               -- three rounds of `if let Less = .. { n += 10; continue } n += 1`
+  else if pos = "let2" then some (showOrd o ++ "|" ++ showOrd os)
+  else if pos = "closure" then some (showOrd o)
+  else if pos = "key2" then                                                     -- a second key with priority
+    match key with
+    | some (p1, p2) => some (showOrd (if p1 ≠ p2 then (if p1 < p2 then .lt else .gt) else o))
+    | none => none
+  else none
+
+/-- the same for a `bool`-valued macro call -/
+def posBool (pos : String) (e es : Bool) (key : Option (Int × Int)) : Option String :=
+  if pos = "not" || pos = "constnot" then some (showBool (!e))
+  else if pos = "ifv" then some (if e then "11" else "10")
+  else if pos = "match" then some (if e then "1" else "0")
+  else if pos = "loop" then some (if e then "30" else "3")
+  else if pos = "let2" then some (showBool e ++ "|" ++ showBool es)
+  else if pos = "closure" then some (showBool e)
+  else if pos = "key2" then
+    match key with
+    | some (p1, p2) => some (showBool (!(e && decide (p1 = p2))))
+    | none => none
+  else none
+
+/-- post-processing of the tokens of the macro's value (`x`) and of its value on the swapped
+    arguments (`xs`); a panic of the macro is a panic of the whole function -/
+def posApply (what pos x xs : String) (key : Option (Int × Int)) : Option String :=
+  if x = "panic" || (pos = "let2" && xs = "panic") then some "panic"
+  else if what = "cmp" then do posOrd pos (← parseOrd x) (← parseOrd xs) key
+  else if what = "eq" then do posBool pos (← parseBoolTok x) (← parseBoolTok xs) key
+  else if what = "assertc" then
+    if pos = "stmt" then (if x = "ok" then some "7" else none) else none      -- `{ assertc_*!(l, r); 7 }`
+  else none
+
+/-- `<what>.at.<position>.<via> <ty> <a> <b> [<p1> <p2>]` -/
+def handleAt (what pos via : String) (args : List String) : Option (String × String) := do
+  let (ty, a, b, key) ← match args with
+    | [ty, a, b] => some (ty, a, b, none)
+    | [ty, a, b, p1, p2] => do some (ty, a, b, some (← parseInt p1, ← parseInt p2))
+    | _ => none
+  if (pos = "key2") ≠ key.isSome then none else
+  if (argUseOf what via).isNone then none else
+  let (m, s) ← handleBase s!"{what}.{via}" [ty, a, b]
+  let (ms, ss) ← handleBase s!"{what}.{via}" [ty, b, a]
+  some (← posApply what pos m ms key, ← posApply what pos s ss key)
+
+def handle (op : String) (args : List String) : Option (String × String) :=
+  match op.splitOn "." with
+  | [what, shape, via] =>
+    if shape = "se" || shape = "sb" then handleStreams what via args else handleBase op args
+  | [what, "at", pos, via] => handleAt what pos via args
+  | _ => handleBase op args
 
 end Driver.C16
